@@ -221,6 +221,16 @@ let handle (line : Stdlib.String.t) : Stdlib.String.t =
               "OK " ^ Buffer.contents b ^ " | " ^ pr (dialect_of "MYSQL") ^ " | " ^ pr (dialect_of "HIVE")
               ^ " | " ^ (if no_list v then "hashable" else "unhashable"))
        with Failure m -> "BAD-REQUEST " ^ m)
+  | "SETWITH" :: dialect :: rest ->
+      (try
+         let rec split acc = function "|" :: r -> (List.rev acc, r) | x :: r -> split (x :: acc) r | [] -> (List.rev acc, []) in
+         let (a, b) = split [] rest in
+         (match setwith_text (dialect_of dialect) (ints_of a) (ints_of b) with
+          | Err e -> "PARSEERR " ^ err_name e
+          | Ok (Err e) -> "HELPERR " ^ err_name e
+          | Ok (Ok v) -> let bf = Buffer.create 512 in dump_value bf v;
+              "OK " ^ Buffer.contents bf ^ " | " ^ (if no_list v then "hashable" else "unhashable"))
+       with Failure m -> "BAD-REQUEST " ^ m)
   | "CURSOR" :: rest ->
       (try
          let (toks, rest1) = parse_toks rest in
